@@ -159,3 +159,317 @@ Proof.
   - destruct (N.eqb (s_dialing (get h k0)) 0); [intros []|].
     cbn [snd]. rewrite (proj1 (quiet_reannounce C _)). intros [].
 Qed.
+
+(* ---- independence: a label that names a SKI leaves every other SKI's record alone ---- *)
+Lemma keep_fst_reg C h k inc : fst (keep_this C h k inc) = true \/ fst (keep_this C h k inc) = false.
+Proof. destruct (fst _); auto. Qed.
+
+Lemma hstep_other C h l k0 j :
+  label_ski l = Some k0 -> j <> k0 -> get (fst (hstep C h l)) j = get h j.
+Proof.
+  intros LS NE. destruct l; inversion LS; subst; cbn [hstep].
+  - destruct (negb (h_started h)); [|destruct (s_reg (get h k0))]; cbn [fst]; apply get_upd_other, NE.
+  - cbn [fst]. apply get_upd_other, NE.
+  - cbn [fst]. apply get_upd_other, NE.
+  - reflexivity.
+  - cbn [fst]. apply get_upd_other, NE.
+  - destruct (queued (get h k0)).
+    + destruct (keep_this C _ k0 true) as [[|] o2]; cbn [fst]; rewrite ?get_upd_other by exact NE; reflexivity.
+    + destruct (keep_this C h k0 true) as [[|] o2]; cbn [fst]; rewrite ?get_upd_other by exact NE; reflexivity.
+  - cbn [fst]. apply get_upd_other, NE.
+  - cbn [fst]. apply get_upd_other, NE.
+  - cbn [fst]. apply get_upd_other, NE.
+  - destruct (s_pend (get h k0)); [|reflexivity].
+    repeat match goal with |- context [if ?b then _ else _] => destruct b end;
+      cbn [fst]; apply get_upd_other, NE.
+  - destruct (N.eqb (s_dialing (get h k0)) 0); [reflexivity|].
+    destruct (keep_this C _ k0 false) as [[|] o2]; cbn [fst]; rewrite ?get_upd_other by exact NE; reflexivity.
+  - destruct (N.eqb (s_dialing (get h k0)) 0); [reflexivity|]. cbn [fst]. apply get_upd_other, NE.
+Qed.
+
+Lemma hstep_global_core C h l j :
+  label_ski l = None -> same_core (get (fst (hstep C h l)) j) (get h j).
+Proof.
+  intros LS. destruct l; try discriminate LS; cbn [hstep fst]; try apply same_core_refl.
+  apply report_core.
+Qed.
+
+Lemma may_dial_core a b : same_core a b -> may_dial a = may_dial b.
+Proof. intros (A & B & _). unfold may_dial, queued. rewrite A, B. reflexivity. Qed.
+
+(* the shut-down flag is set by Shutdown (when it sets one at all) and by nothing else;
+   nothing clears it *)
+Lemma hstep_down C h l :
+  h_down (fst (hstep C h l)) = h_down h || match l with LShutdown => c_flag C | _ => false end.
+Proof.
+  destruct l; cbn [hstep]; try (cbn [fst h_down upd]; rewrite ?orb_false_r; reflexivity).
+  - destruct (negb (h_started h)); [|destruct (s_reg (get h k))]; cbn [fst]; rewrite orb_false_r; reflexivity.
+  - cbn [fst]. rewrite orb_false_r. apply (report_flags C ks h).
+  - destruct (queued (get h k)).
+    + destruct (keep_this C _ k true) as [[|] o2]; cbn [fst]; rewrite orb_false_r; reflexivity.
+    + destruct (keep_this C h k true) as [[|] o2]; cbn [fst]; rewrite orb_false_r; reflexivity.
+  - rewrite orb_false_r. destruct (s_pend (get h k)); [|reflexivity].
+    repeat match goal with |- context [if ?b then _ else _] => destruct b end; reflexivity.
+  - rewrite orb_false_r. destruct (N.eqb (s_dialing (get h k)) 0); [reflexivity|].
+    destruct (keep_this C _ k false) as [[|] o2]; reflexivity.
+  - rewrite orb_false_r. destruct (N.eqb (s_dialing (get h k)) 0); reflexivity.
+Qed.
+
+(* ---- (a) where "trusted or queued" comes from ---- *)
+Lemma keep_this_state C h k inc s :
+  get (if fst (keep_this C h k inc) then upd h k s else h) k = (if fst (keep_this C h k inc) then s else get h k).
+Proof. destruct (fst _); [apply get_upd_same|reflexivity]. Qed.
+
+Lemma grant_origin C h l k :
+  may_dial (get (fst (hstep C h l)) k) = true -> may_dial (get h k) = false -> regrants l k = true.
+Proof.
+  intros A B.
+  destruct (label_ski l) as [k0|] eqn:LS.
+  2:{ rewrite (may_dial_core _ _ (hstep_global_core C h l k LS)) in A. congruence. }
+  destruct (N.eqb_spec k k0) as [->|NE].
+  2:{ rewrite (hstep_other C h l k0 k LS NE) in A. congruence. }
+  unfold may_dial, queued in *.
+  destruct l; inversion LS; subst; cbn [hstep regrants] in *; rewrite ?N.eqb_refl; try reflexivity.
+  - exfalso. cbn [fst] in A. rewrite get_upd_same in A. cbn in A. discriminate A.
+  - exfalso. cbn [fst] in A. rewrite get_upd_same in A. cbn in A. discriminate A.
+  - exfalso. cbn [fst] in A. congruence.
+  - exfalso. cbn [fst] in A. rewrite get_upd_same in A. cbn in A. congruence.
+  - exfalso. apply orb_false_iff in B as [B1 B2]. unfold queued in A. rewrite B2 in A.
+    destruct (keep_this C h k0 true) as [[|] o2]; cbn [fst] in A; rewrite ?get_upd_same in A; cbn in A;
+      rewrite B1, B2 in A; discriminate A.
+  - exfalso. cbn [fst] in A. rewrite get_upd_same in A. cbn in A. congruence.
+  - (* a state report: hello-ok, or a state that maps to Queued *)
+    cbn [fst] in A. rewrite get_upd_same in A. apply orb_false_iff in B as [B1 B2].
+    unfold grant_state. destruct (N.eqb st SmeHelloStateOk); [reflexivity|].
+    cbn in A. rewrite B1 in A. cbn in A. destruct err; [discriminate A|]. cbn. exact A.
+  - exfalso. cbn [fst] in A. rewrite get_upd_same in A.
+    destruct (s_reg (get h k0)) as [r|]; [destruct (N.eqb r c), completed|]; cbn in A; congruence.
+  - exfalso. destruct (s_pend (get h k0)); [|cbn [fst] in A; congruence].
+    repeat match type of A with context [if ?b then _ else _] => destruct b end;
+      cbn [fst] in A; rewrite get_upd_same in A; cbn in A; congruence.
+  - exfalso. destruct (N.eqb (s_dialing (get h k0)) 0); [cbn [fst] in A; congruence|].
+    destruct (keep_this C _ k0 false) as [[|] o2]; cbn [fst] in A; rewrite ?get_upd_same in A; cbn in A; congruence.
+  - exfalso. destruct (N.eqb (s_dialing (get h k0)) 0); [cbn [fst] in A; congruence|].
+    cbn [fst] in A. rewrite get_upd_same in A. cbn in A. congruence.
+Qed.
+
+(* ---- runs ---- *)
+Lemma hrun_cons C h l r :
+  hrun C h (l :: r) = (fst (hrun C (fst (hstep C h l)) r), snd (hstep C h l) ++ snd (hrun C (fst (hstep C h l)) r)).
+Proof. cbn [hrun]. destruct (hstep C h l) as [h1 o1]. cbn [fst snd]. destruct (hrun C h1 r). reflexivity. Qed.
+
+(* (a)/(b): as long as nothing re-grants trust to k (no registration, no hello-ok report, no
+   report of a state mapped to Queued), k stays neither trusted nor queued and no dial to k
+   starts — whatever mDNS reports, however many delayed dials are pending or fire *)
+Lemma no_grant_no_dial C k : forall ls h,
+  may_dial (get h k) = false ->
+  (forall l, In l ls -> regrants l k = false) ->
+  ~ In k (dials_of (snd (hrun C h ls))) /\ may_dial (get (fst (hrun C h ls)) k) = false.
+Proof.
+  induction ls as [|l r IH]; intros h M G.
+  - cbn. split; [intros []|exact M].
+  - rewrite hrun_cons. cbn [fst snd].
+    assert (M1 : may_dial (get (fst (hstep C h l)) k) = false).
+    { destruct (may_dial (get (fst (hstep C h l)) k)) eqn:E; [|reflexivity].
+      specialize (G l (or_introl eq_refl)). rewrite (grant_origin C h l k E M) in G. discriminate G. }
+    destruct (IH (fst (hstep C h l)) M1 (fun l' H => G l' (or_intror H))) as [D1 D2].
+    split; [|exact D2].
+    rewrite dials_app. intros H. apply in_app_or in H as [H|H]; [|exact (D1 H)].
+    apply dial_step in H as (_ & H & _). congruence.
+Qed.
+
+(* (b) what UnregisterRemoteSKI does at once *)
+Lemma unregister_effect C h k :
+  let h' := fst (hstep C h (LUnregister k)) in
+  let o := snd (hstep C h (LUnregister k)) in
+  s_trusted (get h' k) = false /\ s_pst (get h' k) = ConnectionStateNone /\ s_counter (get h' k) = None
+  /\ may_dial (get h' k) = false
+  /\ (forall c, s_reg (get h k) = Some c -> In (OClose c true 4500) o).
+Proof.
+  cbn [hstep fst snd]. rewrite get_upd_same. repeat split.
+  intros c R. rewrite R. right. left. reflexivity.
+Qed.
+
+(* (c) what CancelPairingWithSKI does at once *)
+Lemma cancel_effect C h k :
+  let h' := fst (hstep C h (LCancel k)) in
+  let o := snd (hstep C h (LCancel k)) in
+  s_trusted (get h' k) = false /\ s_pst (get h' k) = ConnectionStateNone /\ s_counter (get h' k) = None
+  /\ may_dial (get h' k) = false
+  /\ (forall c, s_reg (get h k) = Some c -> In (OAbort c) o).
+Proof.
+  cbn [hstep fst snd]. rewrite get_upd_same. repeat split.
+  intros c R. rewrite R. left. reflexivity.
+Qed.
+
+(* (d) once the flag is set no dial starts any more *)
+Lemma down_stays C : forall ls h, h_down h = true -> h_down (fst (hrun C h ls)) = true.
+Proof.
+  induction ls as [|l r IH]; intros h D; [exact D|].
+  rewrite hrun_cons. cbn [fst]. apply IH. rewrite hstep_down, D. reflexivity.
+Qed.
+Lemma no_dial_when_down C : c_gprep C = true -> forall ls h,
+  h_down h = true -> dials_of (snd (hrun C h ls)) = [].
+Proof.
+  intros P. induction ls as [|l r IH]; intros h D; [reflexivity|].
+  rewrite hrun_cons. cbn [snd]. rewrite dials_app, IH by (rewrite hstep_down, D; reflexivity).
+  rewrite app_nil_r. destruct (dials_of (snd (hstep C h l))) as [|k t] eqn:E; [reflexivity|].
+  assert (In k (dials_of (snd (hstep C h l)))) as H by (rewrite E; left; reflexivity).
+  apply dial_step in H as (_ & _ & _ & H). rewrite (H P) in D. discriminate D.
+Qed.
+Lemma no_dial_after_shutdown C : c_flag C = true -> c_gprep C = true -> forall h ls,
+  dials_of (snd (hrun C (fst (hstep C h LShutdown)) ls)) = [].
+Proof.
+  intros F P h ls. apply no_dial_when_down; [exact P|].
+  rewrite hstep_down, F. apply orb_true_r.
+Qed.
+(* ... and nothing is re-announced or requested from mDNS *)
+Lemma reannounce_down C h : c_grean C = true -> h_down h = true -> reannounce C h = [].
+Proof. intros G D. unfold reannounce. rewrite G, D. reflexivity. Qed.
+
+(* the table regenerated from the current source has the flag and consults it in all four places *)
+Lemma table_guards :
+  hub_shutdown_flag = true /\ hub_guard_coordinate = true /\ hub_guard_prepare = true
+  /\ hub_guard_initiate = true /\ hub_guard_reannounce = true.
+Proof. repeat split. Qed.
+
+(* no slack: a hub whose Shutdown sets no flag does dial afterwards *)
+Definition noflag_cfg : cfg := mkCfg [0] (fun _ => false) 2 false false false false false.
+Lemma shutdown_without_flag_dials :
+  dials_of (snd (hrun noflag_cfg (hub0 true) [LRegister 0; LReport [0]; LShutdown; LFire 0])) = [0].
+Proof. vm_compute. reflexivity. Qed.
+
+(* ---- C11-hub ---- *)
+Lemma closed_effect C h k c completed :
+  let h' := fst (hstep C h (LClosed k c completed)) in
+  let o := snd (hstep C h (LClosed k c completed)) in
+  s_reg (get h' k) = match s_reg (get h k) with
+                     | Some r => if N.eqb r c then None else Some r
+                     | None => None end
+  /\ count_obs (ODisc k) o = 1%nat.
+Proof.
+  cbn [hstep fst snd]. rewrite get_upd_same. split.
+  - destruct (s_reg (get h k)) as [r|] eqn:R; [|exact R].
+    destruct (N.eqb r c), completed; cbn; try exact R; reflexivity.
+  - unfold count_obs. cbn [filter]. 
+    assert (obs_beq (ODisc k) (ODisc k) = true) as -> by (apply internal_obs_dec_lb; reflexivity).
+    cbn [length]. f_equal.
+    destruct (negb completed && negb _); [reflexivity|].
+    apply (proj2 (proj2 (proj2 (quiet_reannounce C _)))).
+Qed.
+
+(* ---- C09-hub: a created connection carries the SHIP ID stored for its SKI ---- *)
+Lemma create_step C h l k id :
+  In (k, id) (creates_of (snd (hstep C h l))) -> id = s_shipid (get h k).
+Proof.
+  destruct l; cbn [hstep].
+  - destruct (negb (h_started h)); cbn [snd].
+    + rewrite (proj1 (proj2 (quiet_reannounce C _))). intros [].
+    + destruct (s_reg (get h k0)); cbn [snd]; intros [].
+  - cbn [snd]. destruct (s_reg (get h k0)); intros [].
+  - cbn [snd]. destruct (s_reg (get h k0)); intros [].
+  - cbn [snd]. destruct (s_reg (get h k0)); intros [].
+  - intros [].
+  - cbn [snd creates_of flat_map]. rewrite app_nil_l. fold (creates_of (closes_of C h)).
+    rewrite (proj1 (proj2 (quiet_closes C h))). intros [].
+  - intros [].
+  - intros [].
+  - intros [].
+  - destruct (queued (get h k0)).
+    + destruct (keep_this C _ k0 true) as [go o2] eqn:K.
+      pose proof (quiet_keep C (upd h k0 (set_pst (get h k0) ConnectionStateReceivedPairingRequest)) k0 true) as Q.
+      rewrite K in Q. cbn [snd] in Q. destruct Q as (_ & Q & _).
+      destruct go; cbn [snd]; rewrite !creates_app, Q; cbn; [|intros []].
+      intros [E|[]]. inversion E; subst. reflexivity.
+    + destruct (keep_this C h k0 true) as [go o2] eqn:K.
+      pose proof (quiet_keep C h k0 true) as Q. rewrite K in Q. cbn [snd] in Q. destruct Q as (_ & Q & _).
+      destruct go; cbn [snd]; rewrite !creates_app, Q; cbn; [|intros []].
+      intros [E|[]]. inversion E; subst. reflexivity.
+  - intros [].
+  - intros [].
+  - cbn [snd]. destruct (negb completed && negb _); [intros []|].
+    cbn [creates_of flat_map]. rewrite app_nil_l.
+    match goal with |- In _ (flat_map ?f ?x) -> _ => change (flat_map f x) with (creates_of x) end.
+    rewrite (proj1 (proj2 (quiet_reannounce C _))). intros [].
+  - destruct (s_pend (get h k0)) as [n|]; [|intros []].
+    repeat match goal with |- context [if ?b then _ else _] => destruct b end; cbn [snd]; try (intros []; fail).
+    all: rewrite (proj1 (proj2 (quiet_reannounce C _))); intros [].
+  - destruct (N.eqb (s_dialing (get h k0)) 0); [intros []|].
+    destruct (keep_this C _ k0 false) as [go o2] eqn:K.
+    pose proof (quiet_keep C (upd h k0 (set_dialing (get h k0) (N.pred (s_dialing (get h k0))))) k0 false) as Q.
+    rewrite K in Q. cbn [snd] in Q. destruct Q as (_ & Q & _).
+    destruct go; cbn [snd]; rewrite !creates_app, Q.
+    + cbn. intros [E|[]]. inversion E; subst. reflexivity.
+    + rewrite (proj1 (proj2 (quiet_reannounce C _))). intros [].
+  - destruct (N.eqb (s_dialing (get h k0)) 0); [intros []|].
+    cbn [snd]. rewrite (proj1 (proj2 (quiet_reannounce C _))). intros [].
+Qed.
+
+(* ---- (b) the window: an unregister while a dial is in flight ---- *)
+Definition window_cfg : cfg := with_table [0] (fun _ => false).
+Definition window_run : list label :=
+  [LRegister 0; LReport [0]; LFire 0; LUnregister 0; LDialOk 0 1; LState 0 SmeHelloStateOk false].
+Lemma window_witness :
+  let h := fst (hrun window_cfg (hub0 true) window_run) in
+  s_trusted (get h 0) = true /\ s_reg (get h 0) = Some 1
+  /\ run_window window_cfg ghost0 (hub0 true) window_run = [19]
+  /\ window_free window_cfg (hub0 true) window_run = false.
+Proof. vm_compute. repeat split. Qed.
+
+(* ---- C01-hub: the trusted flag becomes true only by registration or a hello-ok report ---- *)
+Definition grants_trust (l : label) (k : N) : bool :=
+  match l with
+  | LRegister j => N.eqb j k
+  | LState j st _ => N.eqb j k && N.eqb st SmeHelloStateOk
+  | _ => false
+  end.
+
+Lemma trusted_origin C h l k :
+  s_trusted (get (fst (hstep C h l)) k) = true -> s_trusted (get h k) = false -> grants_trust l k = true.
+Proof.
+  intros A B.
+  destruct (label_ski l) as [k0|] eqn:LS.
+  2:{ destruct (hstep_global_core C h l k LS) as (E & _). congruence. }
+  destruct (N.eqb_spec k k0) as [->|NE].
+  2:{ rewrite (hstep_other C h l k0 k LS NE) in A. congruence. }
+  destruct l; inversion LS; subst; cbn [hstep grants_trust] in *; rewrite ?N.eqb_refl; try reflexivity.
+  - exfalso. cbn [fst] in A. rewrite get_upd_same in A. cbn in A. discriminate A.
+  - exfalso. cbn [fst] in A. rewrite get_upd_same in A. cbn in A. discriminate A.
+  - exfalso. cbn [fst] in A. congruence.
+  - exfalso. cbn [fst] in A. rewrite get_upd_same in A. cbn in A. congruence.
+  - exfalso. destruct (queued (get h k0));
+      [destruct (keep_this C _ k0 true) as [[|] o2]|destruct (keep_this C h k0 true) as [[|] o2]];
+      cbn [fst] in A; rewrite ?get_upd_same in A; cbn in A; congruence.
+  - exfalso. cbn [fst] in A. rewrite get_upd_same in A. cbn in A. congruence.
+  - cbn [fst] in A. rewrite get_upd_same in A.
+    destruct (N.eqb st SmeHelloStateOk); [reflexivity|]. cbn in A. congruence.
+  - exfalso. cbn [fst] in A. rewrite get_upd_same in A.
+    destruct (s_reg (get h k0)) as [r|]; [destruct (N.eqb r c), completed|]; cbn in A; congruence.
+  - exfalso. destruct (s_pend (get h k0)); [|cbn [fst] in A; congruence].
+    repeat match type of A with context [if ?b then _ else _] => destruct b end;
+      cbn [fst] in A; rewrite get_upd_same in A; cbn in A; congruence.
+  - exfalso. destruct (N.eqb (s_dialing (get h k0)) 0); [cbn [fst] in A; congruence|].
+    destruct (keep_this C _ k0 false) as [[|] o2]; cbn [fst] in A; rewrite ?get_upd_same in A; cbn in A; congruence.
+  - exfalso. destruct (N.eqb (s_dialing (get h k0)) 0); [cbn [fst] in A; congruence|].
+    cbn [fst] in A. rewrite get_upd_same in A. cbn in A. congruence.
+Qed.
+
+(* the seeded variant "state >= hello-ok and not error" would trust on abort / rejected states *)
+Lemma hello_ok_only : forall st, N.eqb st SmeHelloStateOk = true -> st = 13.
+Proof. intros st H. apply N.eqb_eq in H. exact H. Qed.
+
+(* only the initial state is mapped to Queued by the regenerated table (states are below 64) *)
+Lemma only_initstart_maps_to_queued :
+  filter (fun st => N.eqb (pair_state_of st) ConnectionStateQueued) (map N.of_nat (seq 0 64)) = [CmiStateInitStart].
+Proof. vm_compute. reflexivity. Qed.
+
+(* the hypotheses of the run theorems are satisfiable by non-trivial runs *)
+Example dial_after_registration :
+  dials_of (snd (hrun (with_table [0;1] (fun _ => false)) (hub0 true)
+                 [LReport [0;1]; LRegister 1; LReport [0;1]; LFire 1])) = [1].
+Proof. vm_compute. reflexivity. Qed.
+Example pending_dial_dropped_by_unregister :
+  let r := hrun (with_table [0] (fun _ => false)) (hub0 true)
+             [LRegister 0; LReport [0]; LFire 0; LDialFail 0; LReport [0]; LUnregister 0; LFire 0] in
+  dials_of (snd r) = [0] /\ s_pend (get (fst r) 0) = None.
+Proof. vm_compute. split; reflexivity. Qed.
